@@ -34,6 +34,12 @@ func (o Opt4) ToOpt() trie.Opt {
 	return trie.Opt{DedupValue: tri(o.D), InnerPrefix: tri(o.I), LeafPrefix: tri(o.L), Complete: tri(o.C)}
 }
 
+// ToOptShared makes a trie.Opt whose fields share one cell per Boolean value.
+func (o Opt4) ToOptShared() trie.Opt {
+	cells := map[int8]*bool{0: trie.Bool(false), 1: trie.Bool(true)}
+	return trie.Opt{DedupValue: cells[o.D], InnerPrefix: cells[o.I], LeafPrefix: cells[o.L], Complete: cells[o.C]}
+}
+
 // Norm returns the documented normalisation: dedup (default true), inner, leaf.
 func (o Opt4) Norm() (dedup, inner, leaf bool) {
 	dedup = o.D != 0
@@ -500,19 +506,23 @@ type Case struct {
 	Opt    Opt4
 	// NoOptArg: call NewSlimTrie without an Opt argument (Opt must be all-nil then).
 	NoOptArg bool
+	// SharedCells: the option fields that carry the same Boolean point to ONE
+	// shared cell (no := trie.Bool(false); Opt{DedupValue: no, InnerPrefix: no, ...}).
+	SharedCells bool
 }
 
 // CaseJSON is the serialised form used in replay files and samples.
 type CaseJSON struct {
-	KeysHex  []string `json:"keys_hex"`
-	ValIDs   []int    `json:"val_ids"`
-	Enc      string   `json:"enc"`
-	Opt      string   `json:"opt"`
-	NoOptArg bool     `json:"no_opt_arg,omitempty"`
+	KeysHex     []string `json:"keys_hex"`
+	ValIDs      []int    `json:"val_ids"`
+	Enc         string   `json:"enc"`
+	Opt         string   `json:"opt"`
+	NoOptArg    bool     `json:"no_opt_arg,omitempty"`
+	SharedCells bool     `json:"shared_option_cells,omitempty"`
 }
 
 func (c *Case) JSON() CaseJSON {
-	j := CaseJSON{ValIDs: c.ValIDs, Enc: c.Enc, Opt: c.Opt.String(), NoOptArg: c.NoOptArg}
+	j := CaseJSON{ValIDs: c.ValIDs, Enc: c.Enc, Opt: c.Opt.String(), NoOptArg: c.NoOptArg, SharedCells: c.SharedCells}
 	for _, k := range c.Keys {
 		j.KeysHex = append(j.KeysHex, hex.EncodeToString([]byte(k)))
 	}
@@ -520,7 +530,7 @@ func (c *Case) JSON() CaseJSON {
 }
 
 func (j CaseJSON) Case() *Case {
-	c := &Case{ValIDs: j.ValIDs, Enc: j.Enc, Opt: ParseOpt4(j.Opt), NoOptArg: j.NoOptArg}
+	c := &Case{ValIDs: j.ValIDs, Enc: j.Enc, Opt: ParseOpt4(j.Opt), NoOptArg: j.NoOptArg, SharedCells: j.SharedCells}
 	for _, k := range j.KeysHex {
 		b, err := hex.DecodeString(k)
 		if err != nil {
@@ -553,7 +563,13 @@ func (c *Case) Brief() string {
 			vs = fmt.Sprint(c.ValIDs)
 		}
 	}
-	return fmt.Sprintf("keys=[%s] vals=%s enc=%s opt=%s", strings.Join(ks, ","), vs, c.Enc, c.Opt)
+	form := ""
+	if c.NoOptArg {
+		form = " (no Opt argument)"
+	} else if c.SharedCells {
+		form = " (option fields share one cell per value)"
+	}
+	return fmt.Sprintf("keys=[%s] vals=%s enc=%s opt=%s%s", strings.Join(ks, ","), vs, c.Enc, c.Opt, form)
 }
 
 // Built is a Case together with its reference model and the fresh instance.
@@ -620,6 +636,8 @@ func Build(c *Case) (b *Built, panicked interface{}) {
 		keys := append([]string{}, c.Keys...)
 		if c.NoOptArg {
 			b.ST, b.Err = trie.NewSlimTrie(b.Encoder, keys, b.Values)
+		} else if c.SharedCells {
+			b.ST, b.Err = trie.NewSlimTrie(b.Encoder, keys, b.Values, c.Opt.ToOptShared())
 		} else {
 			b.ST, b.Err = trie.NewSlimTrie(b.Encoder, keys, b.Values, c.Opt.ToOpt())
 		}
